@@ -16,6 +16,10 @@ import (
 // "operation started" against "transport closed the request body" etc.
 var seq atomic.Int64
 
+// schedRoundRobin selects the default scheduler of the next runSched calls
+// (workers are single-threaded).
+var schedRoundRobin bool
+
 func tick() int64 { return seq.Add(1) }
 
 // runSched executes body once in a fresh bubble under a fresh scheduler
@@ -34,6 +38,7 @@ func runSched(t *testing.T, prefix []int, expect []bsched.Point, maxSteps int, b
 		if maxSteps > 0 {
 			s.MaxSteps = maxSteps
 		}
+		s.RoundRobin = schedRoundRobin
 		SetGate(s.Gate)
 		defer SetGate(nil)
 		x.Obs = body(s)
